@@ -43,7 +43,6 @@ func Run(r *core.Report, env *build.Env) {
 			goh.Harness{Pkg: pk, Func: "VerifC03LexAliasN3", Bound: "scanner (alias mode) + literal helpers: all byte strings of length 3"},
 			goh.Harness{Pkg: pk, Func: "VerifC03ParseN3", Bound: "whole frontend: all sources of 3 bytes", Opts: gose.Options{Deadline: 40 * time.Minute}},
 			goh.Harness{Pkg: pk, Func: "VerifC03Tokens3", Bound: "parser/resolver/typechecker: every sequence of 3 token kinds", Opts: gose.Options{Deadline: 40 * time.Minute}},
-			goh.Harness{Pkg: pk, Func: "VerifC03AfterPrefix3", Bound: "11 concrete openings continued by every sequence of 3 token kinds", Opts: gose.Options{Deadline: 40 * time.Minute}},
 			goh.Harness{Pkg: pk, Func: "VerifC03Tokens3Indented", Bound: "every sequence of 3 token kinds, second line indented", Opts: gose.Options{Deadline: 40 * time.Minute}},
 		)
 	}
